@@ -49,13 +49,15 @@ def catalogue():
             continue
         mod = fn[:-3]
         src = open(os.path.join(KDIR, fn)).read()
-        cfg = {"dbg": True}
+        cfg = {"dbg": True, "features": ""}
         m = re.search(r"//\s*@config\s+(.*)", src)
         if m:
             for kv in m.group(1).split():
                 k, v = kv.split("=")
                 if k == "debug_assertions":
                     cfg["dbg"] = v == "on"
+                if k == "features":
+                    cfg["features"] = v
         for blk in re.finditer(r"harnesses!\s*\{(.*?)\n\}", src, re.S):
             attrs = []
             for line in blk.group(1).split("\n"):
@@ -77,6 +79,7 @@ def catalogue():
                         "fq": f"input::verif::{mod}::proofs::{name}",
                         "expr": expr,
                         "dbg": cfg["dbg"],
+                        "features": cfg["features"],
                         "bounded": bound,
                         "unwind": next((int(re.search(r"\d+", a).group()) for a in attrs if "unwind" in a), None),
                         "stub": any("kani::stub" in a for a in attrs),
@@ -183,7 +186,7 @@ def tree_hash(mod=None):
         if mod is None:
             names = sorted(f for f in os.listdir(KDIR) if f.endswith(".rs"))
         else:
-            names = ["entry.rs", "fw.rs"] + sorted(m + ".rs" for m in _module_files(mod))
+            names = ["entry.rs", "mods.rs", "fw.rs", "hashmodel.rs"] + sorted(m + ".rs" for m in _module_files(mod))
         for f in names:
             hsh.update(f.encode())
             hsh.update(open(os.path.join(KDIR, f), "rb").read())
@@ -204,10 +207,10 @@ def run_harness(name, h, worker, tier):
             return name, res
         except Exception:
             pass
-    tdir = os.path.join(WORK, "kt", "dbg" if h["dbg"] else "nodbg", f"w{worker}")
+    tdir = os.path.join(WORK, "kt", ("dbg" if h["dbg"] else "nodbg") + ("_" + h["features"] if h.get("features") else ""), f"w{worker}")
     os.makedirs(tdir, exist_ok=True)
     cmd = [
-        "cargo", "kani", "--no-default-features", "--features", FEATURES,
+        "cargo", "kani", "--no-default-features", "--features", FEATURES + ("," + h["features"] if h.get("features") else ""),
         "--target-dir", tdir, "--harness", h["fq"], "--exact", "--output-format", "regular",
     ]
     if h.get("stub"):
